@@ -278,6 +278,8 @@ def run(ctx, proof):
     # ... and several within-word expressions of one shape whose values sit on different `||` levels (candidates for
     # sharing one table-reading function in the script)
     c01.check_grammars(ctx, 300 if ctx.thorough() else 16, own="C09", gen="twin_gen")
+    # ... and `||` chains of three and four alternatives whose candidates share their first letters
+    c01.check_grammars(ctx, 300 if ctx.thorough() else 16, own="C09", gen="chain_gen")
     ctx.extra["programs"] = ctx.evaluations
 
 
